@@ -17,8 +17,8 @@ type c07Input struct {
 	Text   string `json:"text,omitempty"`
 }
 
-func tl(s string) refmodel.TPart  { return refmodel.TPart{Lit: s} }
-func tv(l string) refmodel.TPart  { return refmodel.TPart{Label: l} }
+func tl(s string) refmodel.TPart { return refmodel.TPart{Lit: s} }
+func tv(l string) refmodel.TPart { return refmodel.TPart{Label: l} }
 
 // c07StageInfo: a stage plus what it reads/writes (to keep renames and templates of one stage disjoint, §4).
 type c07StageInfo struct {
@@ -61,9 +61,13 @@ func c07Stages() []c07StageInfo {
 		{s: &refmodel.Drop{Items: []refmodel.DKItem{dk("a"), dk("c"), dk("missing")}}},
 		{s: &refmodel.Drop{Items: []refmodel.DKItem{dm("c", "=", "x")}}},
 		{s: &refmodel.Drop{Items: []refmodel.DKItem{dm("c", "!=", "x")}}},
-		{s: &refmodel.Drop{Items: []refmodel.DKItem{dm("a", "=~", "[0-9]")}, }},
+		{s: &refmodel.Drop{Items: []refmodel.DKItem{dm("a", "=~", "[0-9]")}}},
 		{s: &refmodel.Drop{Items: []refmodel.DKItem{dk("b"), dm("a", "=", "nomatch")}}},
 		{s: &refmodel.Drop{Items: []refmodel.DKItem{dk("__error__")}}, isDropErr: true},
+		{s: &refmodel.Drop{Items: []refmodel.DKItem{dm("msg", "=", "l")}}},
+		{s: &refmodel.Drop{Items: []refmodel.DKItem{dm("msg", "!=", "l"), dm("c", "=~", "")}}},
+		{s: &refmodel.Keep{Items: []refmodel.DKItem{dm("msg", "=", "l"), dm("a", "!=", "")}}, isKeep: true},
+		{s: lfmt(ren("d", "a"), tpl("e", tl("["), tv("d"), tl("|"), tv("a"), tl("]")))},
 		{s: &refmodel.Keep{Items: []refmodel.DKItem{dk("a")}}, isKeep: true},
 		{s: &refmodel.Keep{Items: []refmodel.DKItem{dk("a"), dk("msg"), dk("missing")}}, isKeep: true},
 		{s: &refmodel.Keep{Items: []refmodel.DKItem{dm("c", "=", "x")}}, isKeep: true},
